@@ -167,7 +167,7 @@ def base_docs(thorough):
             loops = sorted(set(lp[-1][0].rsplit('/', 1)[-1] for lp in d.lpaths if len(lp) > 3))
             out.append(('min:' + e[4], d.text(eol='\n'), loops[:1] or ['ST_LOOP']))
     for lab, txt, info in corpus.suite_docs():
-        if thorough or len(txt) <= 700:
+        if (thorough and len(txt) <= 3200) or len(txt) <= 700:
             out.append((lab, txt, ['2300'] if '837' in lab or 'simple' in lab else ['ST_LOOP']))
     for lab, d, info in corpus.shape_docs():
         if (thorough and lab.endswith('2x2x2')) or lab.endswith('1x2x1:bad0'):
@@ -238,17 +238,18 @@ def materialise(thorough):
             env.append(('envseq|' + '-'.join(tup), ref.isa() + '\n' + ''.join(segs[k] + '~\n' for k in tup), ['ST_LOOP']))
     ITEMS['envseq'] = env
     if thorough:
+        # pairs of mutations: second applied to the result of the first, on three small minimal documents, restricted to
+        # the operators that change the envelope / segment structure (the others are covered singly on every document)
         m2 = []
-        mins = [b for b in bases if b[0].startswith('min:')]
+        keep1 = ('delete', 'duplicate', 'swap', 'truncate-after', 'insert-', 'bare', 'retag-ZZZ')
+        keep2 = ('delete', 'duplicate', 'bare', 'count-x', 'insert-SE', 'insert-GE', 'insert-IEA', 'insert-ST', 'insert-GS')
+        mins = [b for b in bases if b[0] in ('min:834.4010.X095.A1.xml', 'min:997.4010.xml', 'min:278.4010.X094.A1.xml')]
         for lab, txt, loops in mins:
-            firsts = list(corpus.mutations(txt))
-            # pairs: second mutation applied to the result of the first, restricted to operators that keep the text short
-            for (l1, t1) in firsts:
-                if l1.startswith(('long-element', 'extra-elements')):
+            for (l1, t1) in corpus.mutations(txt):
+                if not l1.startswith(keep1):
                     continue
-                k = 0
                 for (l2, t2) in corpus.mutations(t1):
-                    if l2.startswith(('long-element', 'extra-elements', 'retag-', 'insert-')):
+                    if not l2.startswith(keep2):
                         continue
                     m2.append(('%s|%s|%s' % (lab, l1, l2), t2, loops))
         ITEMS['mut2'] = m2
@@ -298,7 +299,7 @@ def run(R):
                 'strings': 'all strings <=4 over {I,S,A,*,~,SP,LF}, alone and after a well-formed ISA; 11 special headers',
                 'configs': 'every base document x 8 sink subsets x charset {B,E}',
                 'envseq': 'every sequence of length <=%d over {ISA,GS,ST,body,SE,GE,IEA%s} after a well-formed ISA' % (5 if R.thorough else 4, ',HL' if R.thorough else ''),
-                'mut2': 'every pair of mutations of the minimal documents (second applied to the first result)' if R.thorough else 'not run in quick'}
+                'mut2': 'every pair of structural mutations (first in delete/duplicate/swap/truncate/insert-orphan/bare/retag, second in delete/duplicate/bare/bad count/orphan header or trailer) of three minimal documents' if R.thorough else 'not run in quick'}
     R.assumptions = ['documented refusals: X12Error iff the reference finds an ISA that is not well formed; EngineError "Map not found" iff the (ISA12, GS08, GS01[, BHT02]) key is absent from my reading of maps.xml',
                      'the context reader is driven with loop id None and one loop id occurring in the document']
     return R.finish(LEVEL, 'one text per execution through three entry points; distinct = (family, mutation operator)', exhaustive=True)
